@@ -80,7 +80,7 @@ impl Prop for C01 {
         "model_checking"
     }
     fn rule(&self, _t: Tier) -> String {
-        "every string over the deb822 character-class alphabet up to the length bound (the full input trie: states = strings = trie nodes, transitions = trie edges), plus every sequence of line templates x line terminators up to the line bound (each also without its final character); plus one document per (token kind, length) with a single token stretched to 255 / 256 / 257 / 65535 / 65536 / 65537 characters; each string is one execution of from_str, from_str_relaxed, read, read_relaxed and the lexer; non-trivial = distinct string whose token stream has >= 2 tokens (only cases known to be pairwise distinct are counted)".into()
+        "every string over the deb822 character-class alphabet up to the length bound (the full input trie: states = strings = trie nodes, transitions = trie edges), plus every sequence of line templates x line terminators up to the line bound (each also without its final character); plus one document per (token kind, length) with a single token stretched to 255 / 256 / 257 / 65535 / 65536 / 65537 characters, and documents with 256 / 257 / 65536 error tokens, fields, continuation lines, paragraphs or comment lines; each string is one execution of from_str, from_str_relaxed, read, read_relaxed and the lexer; non-trivial = distinct string whose token stream has >= 2 tokens (only cases known to be pairwise distinct are counted)".into()
     }
     fn bounds(&self, t: Tier) -> Value {
         json!({"spaces": deb822_space(t).describe()})
@@ -314,6 +314,14 @@ pub fn long_token_docs() -> Vec<String> {
         v.push(format!("A: b\n{}C: d\n", "\n".repeat(n))); // blank lines
         v.push(format!("{}\nA: b\n", "x".repeat(n))); // a malformed line
         v.push(format!("A: {}", "v".repeat(n))); // unterminated last token
+    }
+    // ... and COUNTS of tokens / nodes at the same limits: error tokens, fields, continuation lines, paragraphs, comments
+    for n in [256usize, 257, 65536] {
+        v.push("-".repeat(n));
+        v.push("A: b\n".repeat(n));
+        v.push(format!("A: b\n{}", " c\n".repeat(n)));
+        v.push("A: b\n\n".repeat(n));
+        v.push("# c\n".repeat(n));
     }
     v
 }
